@@ -17,8 +17,11 @@ import traceback
 
 from . import REPO, VERIF
 
-EVIDENCE_DIR = os.path.join(VERIF, "evidence")
-REPLAY_DIR = os.path.join(VERIF, "replays")
+# Evidence is only ever written for the tree the manifest speaks about; runs against scratch trees
+# (VERIF_REPO=..., used for mutation trials) keep their output out of the committed files.
+_SCRATCH = REPO != "/repo"
+EVIDENCE_DIR = os.path.join(VERIF, "evidence") if not _SCRATCH else os.path.join(VERIF, "replays", "scratch-evidence")
+REPLAY_DIR = os.path.join(VERIF, "replays") if not _SCRATCH else os.path.join(VERIF, "replays", "scratch")
 KNOWN_FILE = os.path.join(VERIF, "known_findings.json")
 
 MAX_WITNESS_PER_SIG = 3
